@@ -170,7 +170,9 @@ def match_known(known: List[dict], prop: str, rule: str, key: dict) -> Optional[
     for entry in known:
         if entry.get("status") != "open":
             continue
-        if entry.get("property") != prop or entry.get("rule") != rule:
+        props = entry.get("properties") or [entry.get("property")]
+        rules = entry.get("rules") or [entry.get("rule")]
+        if prop not in props or rule not in rules:
             continue
         want = entry.get("match", {})
         if all(key.get(k) == v for k, v in want.items()):
